@@ -6,7 +6,7 @@ import xmlrender as X
 from vplib import Case, xhex
 
 KIND = {"int": 0, "float": 1, "string": 2, "raw": 3, "masked": 4}
-OPC = {"v": 1, "s": 2, "mn": 3, "mx": 4, "fv": 5, "fs": 6, "sv": 7, "ss": 8, "rr": 9, "rw": 10, "rej": 20}
+OPC = {"v": 1, "s": 2, "mn": 3, "mx": 4, "fv": 5, "fs": 6, "sv": 7, "ss": 8, "rr": 9, "rw": 10, "rej": 20, "lost": 21}
 CODE = 101
 
 
@@ -36,8 +36,8 @@ def render_nodes(addr, length, endian, nodes, cachable="NoCache", sibling_invali
 
 def rust_op(op):
     k = op[0]
-    if k == "rej":
-        return "rej:%d" % op[1]
+    if k in ("rej", "lost"):
+        return "%s:%d" % (k, op[1])
     name = "N%d" % op[1]
     if k in ("v", "mn", "mx", "fv", "sv"):
         return "%s:%s" % (k, name)
@@ -50,8 +50,8 @@ def rust_op(op):
 
 def model_op(op):
     k = op[0]
-    if k == "rej":
-        return [2, 20, op[1]]
+    if k in ("rej", "lost"):
+        return [2, OPC[k], op[1]]
     body = [OPC[k], op[1]]
     if k in ("s", "fs", "rr"):
         body.append(op[2])
